@@ -709,4 +709,3 @@ func vSplitPath(path string) []string {
 	segs = append(segs, path[start:])
 	return segs
 }
-
